@@ -55,3 +55,37 @@ func mulFixnums(a, b slip.Fixnum) slip.Object {
 	return p
 }
 
+// reduceInteger returns a fixnum if the value fits and a bignum otherwise.
+func reduceInteger(bi *big.Int) slip.Object {
+	if bi.IsInt64() {
+		return slip.Fixnum(bi.Int64())
+	}
+	return (*slip.Bignum)(bi)
+}
+
+// reduceRational returns an integer if the denominator is one and a ratio
+// otherwise.
+func reduceRational(rat *big.Rat) slip.Object {
+	if rat.IsInt() {
+		return reduceInteger(rat.Num())
+	}
+	return (*slip.Ratio)(rat)
+}
+
+// remRatio returns the remainder of n divided by d with the quotient either
+// rounded toward negative infinity (floor, as for mod) or toward zero (as for
+// rem).
+func remRatio(n, d *big.Rat, floor bool) slip.Object {
+	var (
+		q  big.Rat
+		qi big.Int
+	)
+	_ = q.Quo(n, d)
+	if floor {
+		_ = qi.Div(q.Num(), q.Denom()) // Euclidean, the denominator is positive
+	} else {
+		_ = qi.Quo(q.Num(), q.Denom())
+	}
+	_ = q.Mul(q.SetInt(&qi), d)
+	return reduceRational(q.Sub(n, &q))
+}
